@@ -7,6 +7,11 @@ from vlib import InfraError, log, OUT, SPEC
 
 REGISTRY = {}
 
+
+def wdir(name):
+    """per-process work directory (concurrent checks must not share raw trace files)"""
+    return os.path.join(OUT, 'work', '%s.%d' % (name, os.getpid()))
+
 ALL_SWITCHES = ('CkCompat', 'CkProgress', 'CkOptimistic', 'CkGuards', 'CkVersion', 'CkConvAtomic', 'CkFifo', 'CkPrepare')
 
 
@@ -67,8 +72,8 @@ def finish(prop, tier, seed, res, wall):
     # raw traces are large: drop the work directories of this property (replay files keep program + schedule)
     if not os.environ.get('VERIF_KEEP_WORK'):
         import shutil
-        for d in (prop, 'b3'):
-            shutil.rmtree(os.path.join(OUT, 'work', d), ignore_errors=True)
+        for d in (prop, 'b3', 'mc'):
+            shutil.rmtree(wdir(d), ignore_errors=True)
     log('%s tier=%s: %d new violation(s), %d known-finding witness(es), %.1fs' % (prop, tier, new, known, wall))
     sys.stdout.flush()
     return 1 if new else 0
@@ -105,7 +110,7 @@ def lock_abs_check(prop, tier, seed, switches, plan, fifo=False, crash_is_stuck=
     """plan: list of (cls, [program lines], dict(pb=, max_exec=, mode=))"""
     t0 = time.time()
     bdir = vlib.build(4)
-    workdir = os.path.join(OUT, 'work', prop)
+    workdir = wdir(prop)
     os.makedirs(workdir, exist_ok=True)
     prog_text = {}
     all_execs = []
@@ -353,7 +358,7 @@ def norm_hb(e):
 
 def hb_trace_check(prop, tier, seed, plan):
     bdir = vlib.build(4)
-    workdir = os.path.join(OUT, 'work', prop)
+    workdir = wdir(prop)
     os.makedirs(workdir, exist_ok=True)
     prog_text = {}
     for cls, progs, par in plan:
@@ -442,7 +447,7 @@ def check_c08(prop, tier, seed):
 # ------------------------------------------------------------------------------------------------
 def stream_check(prop, tier, seed, plan, proj, spec_name, cfg_name, describe, statuses=('ok',), max_rounds=3):
     bdir = vlib.build(4)
-    workdir = os.path.join(OUT, 'work', prop)
+    workdir = wdir(prop)
     os.makedirs(workdir, exist_ok=True)
     prog_text = {}
     for cls, progs, par in plan:
@@ -523,7 +528,7 @@ def check_c12(prop, tier, seed):
 def thread_check(prop, tier, seed, plan, proj, spec_name, cfg_path, describe, statuses=('ok', 'stuck'), max_rounds=3,
                  crash_statuses=('crash', 'timeout', 'aborted')):
     """plan: list of (capacity N, [program lines], dict(pb=, max_exec=, mode=))"""
-    workdir = os.path.join(OUT, 'work', prop)
+    workdir = wdir(prop)
     os.makedirs(workdir, exist_ok=True)
     prog_text = {}
     builds = {}
@@ -638,7 +643,7 @@ def id_locked_hb_programs(n):
 
 
 def id_cfg(switches, prop):
-    workdir = os.path.join(OUT, 'work', prop)
+    workdir = wdir(prop)
     os.makedirs(workdir, exist_ok=True)
     sub = {k: ('TRUE' if k in switches else 'FALSE') for k in ('CkUnique', 'CkCapacity', 'CkHeartbeat')}
     return vlib.write_cfg(os.path.join(SPEC, 'cfg', 'IdAbsTrace.tpl.cfg'), sub, os.path.join(workdir, 'id.cfg'))
@@ -721,7 +726,7 @@ def epoch_history(ex, ptext=None):
 
 
 def epoch_cfg(switches, prop):
-    workdir = os.path.join(OUT, 'work', prop)
+    workdir = wdir(prop)
     os.makedirs(workdir, exist_ok=True)
     sub = {k: ('TRUE' if k in switches else 'FALSE') for k in ('CkPin', 'CkMono', 'CkList', 'CkSeq')}
     return vlib.write_cfg(os.path.join(SPEC, 'cfg', 'EpochAbsTrace.tpl.cfg'), sub, os.path.join(workdir, 'epoch.cfg'))
@@ -742,17 +747,22 @@ def epoch_describe(ex, h, line, bad):
         d = 'the execution did not complete (status %s)' % ex.status
     else:
         d = 'unexplained event %s' % info
-    # signature of the known finding D6: the guard creation (gcall .. gret) that precedes the rejected event overlaps
-    # at least two different ForwardGlobalEpoch calls (the worker was stalled between reading the global epoch and
-    # holding its list while the coordinator moved on)
+    # signature of the known finding D6: the guard creation (gcall .. gret) that precedes the rejected event overlaps at
+    # least two different ForwardGlobalEpoch calls AND a list node was retired while it was in progress (the worker was
+    # stalled between reading the global epoch and holding its list while the coordinator moved past its 256-range)
     sig = ['ev:' + str(k), 'status:' + ex.status]
     t_bad = bad.get('t', -1)
     active = False
     inside = False
-    overlap = 0
-    best = 0
-    for e in h[:line + 1]:
-        ek = e['e']
+    overlap = retired = 0
+    best = (0, 0)
+    seen = 0
+    for e in ex.events:
+        ek = e.get('e')
+        if ek in EP_EVENTS:
+            if seen > line:
+                break
+            seen += 1
         if ek == 'fcall':
             active = True
             if inside:
@@ -762,13 +772,16 @@ def epoch_describe(ex, h, line, bad):
         elif ek == 'gcall' and e.get('t') == t_bad:
             inside = True
             overlap = 1 if active else 0
+            retired = 0
         elif ek == 'gret' and e.get('t') == t_bad:
             inside = False
-            best = overlap
+            best = (overlap, retired)
+        elif ek == 'free' and e.get('cls') == 'PN' and inside:
+            retired += 1
     if inside:
-        best = overlap
-    if best >= 2:
-        sig.append('guard-creation-overlaps>=2-forwards')
+        best = (overlap, retired)
+    if best[0] >= 2 and best[1] >= 1:
+        sig.append('guard-creation-overlaps>=2-forwards+node-retired')
     return d, sig
 
 
@@ -940,7 +953,7 @@ def run_zipf(mode, tier, seed, workdir, timeout=900):
 @register('C06')
 def check_c06(prop, tier, seed):
     q = tier == 'quick'
-    workdir = os.path.join(OUT, 'work', prop)
+    workdir = wdir(prop)
     os.makedirs(workdir, exist_ok=True)
     # (M) the sampling algorithm on every order type of table and variate up to MaxN bins
     cfg = vlib.write_cfg(os.path.join(SPEC, 'cfg', 'ZipfSearch.tpl.cfg'), {'MaxN': 6 if q else 7, 'K': 6 if q else 7},
@@ -1008,7 +1021,7 @@ def check_c06(prop, tier, seed):
 
 @register('C19')
 def check_c19(prop, tier, seed):
-    workdir = os.path.join(OUT, 'work', prop)
+    workdir = wdir(prop)
     recs, crashed, out = run_zipf('c19', tier, seed, workdir)
     crecs, ccrashed, cout = run_zipf('c19cons', tier, seed, workdir, timeout=90)
     pending = None
@@ -1083,7 +1096,7 @@ def replay_file(path):
     prop = d.get('property', '?')
     rp = d.get('replay') or {}
     kind = rp.get('kind')
-    workdir = os.path.join(OUT, 'work', 'replay')
+    workdir = wdir('replay')
     os.makedirs(workdir, exist_ok=True)
     print('replaying %s: %s' % (path, (d.get('description') or '')[:300]))
     try:
@@ -1141,7 +1154,7 @@ def replay_file(path):
 def add_level2(res, prop, tier, seed, classes, group, want, b2_reject):
     """b2_reject(cls, execution, program_line) -> True if the real execution violates the property (decided by the
     property's trace specification).  A model counterexample counts only if the real code follows it into a violation."""
-    workdir = os.path.join(OUT, 'work', prop)
+    workdir = wdir(prop)
     os.makedirs(workdir, exist_ok=True)
     cov = res['coverage']
     l2 = {}
@@ -1191,7 +1204,7 @@ def add_level2(res, prop, tier, seed, classes, group, want, b2_reject):
 
 def b2_lock_abs(switches, fifo=False):
     def f(cls, ex, prog):
-        workdir = os.path.join(OUT, 'work', 'b3')
+        workdir = wdir('b3')
         os.makedirs(workdir, exist_ok=True)
         h = vlib.api_history(ex, fifo=fifo)
         cfg = lock_cfg(switches, workdir, 'b3')
@@ -1201,7 +1214,7 @@ def b2_lock_abs(switches, fifo=False):
 
 
 def b2_hb(cls, ex, prog):
-    workdir = os.path.join(OUT, 'work', 'b3')
+    workdir = wdir('b3')
     os.makedirs(workdir, exist_ok=True)
     st, ok = vlib.hb_stream(ex, prog)
     if not ok:
@@ -1212,7 +1225,7 @@ def b2_hb(cls, ex, prog):
 
 
 def b2_nodes(cls, ex, prog):
-    workdir = os.path.join(OUT, 'work', 'b3')
+    workdir = wdir('b3')
     os.makedirs(workdir, exist_ok=True)
     rej, _ = vlib.validate_histories(os.path.join(SPEC, 'NodeTrace.tla'), os.path.join(SPEC, 'cfg', 'NodeTrace.cfg'), [vlib.node_stream(ex)],
                                      workdir, 'b3', nchunks=1)
